@@ -304,7 +304,7 @@ SOLVERS = {
     'DenseLDL/True': (HERM_FAMS + ('diag_r',), ('dense',)),
     'DenseLDL/False': (REALSYM_FAMS + ('csym_c', 'diag_r', 'diag_c'), ('dense',)),
     'SparseLU': (ALL_GEN, ('csc', 'csr')),
-    'auto': (ALL_GEN, ('dense', 'csc', 'csr')),
+    'auto': (ALL_GEN, ('dense', 'csc', 'csr', 'coo', 'dia', 'dia0')),
     'auto/flags': (ALL_GEN, ('dense', 'csc', 'csr')),       # class flags handed over with their (reference) values
 }
 PRECS_PLAIN = ['id', 'jac0.5', 'jac1', 'sor1', 'sor1.5', 'ilu']
@@ -388,12 +388,35 @@ def store(A, storage):
         return sps.csc_matrix(A)
     if storage == 'csr':
         return sps.csr_matrix(A)
+    if storage == 'coo':
+        return sps.coo_matrix(A)
+    if storage in ('dia', 'dia0'):
+        # DIA storage; 'dia0' lists the main diagonal first (as scipy.sparse.diags([main, lower, upper], [0, -1, 1]))
+        A = np.asarray(A)
+        n = A.shape[0]
+        offs = [k for k in range(-n + 1, n) if np.any(np.diagonal(A, k) != 0)]
+        if storage == 'dia0' and 0 in offs:
+            offs = [0] + [k for k in offs if k != 0]
+        data = np.zeros((len(offs), n), dtype=A.dtype)
+        for r, k in enumerate(offs):
+            d = np.diagonal(A, k)
+            if k >= 0:
+                data[r, k:k + len(d)] = d
+            else:
+                data[r, :len(d)] = d
+        M = sps.dia_matrix((data, np.array(offs)), shape=(n, n))
+        assert np.array_equal(M.toarray(), A)
+        return M
     raise KeyError(storage)
 
 
 def snapshot(Ain):
     if isinstance(Ain, np.ndarray):
         return (Ain.copy(),)
+    if Ain.format == 'coo':
+        return (Ain.data.copy(), Ain.row.copy(), Ain.col.copy(), np.array(Ain.shape))
+    if Ain.format == 'dia':
+        return (Ain.data.copy(), Ain.offsets.copy(), np.array(Ain.shape))
     return (Ain.data.copy(), Ain.indices.copy(), Ain.indptr.copy(), np.array(Ain.shape))
 
 
